@@ -237,13 +237,22 @@ fn gen_len(g: &mut Rng, size: usize) -> usize {
 }
 
 impl<T: Model> Model for Vec<T> {
+    fn big_model_ok() -> bool {
+        // thousands of small variable-size items are fine for the model; tens of thousands of fixed ones are not
+        !<T as Encode>::is_ssz_fixed_len()
+    }
     fn big_values(g: &mut Rng) -> Vec<Self> {
         let fl = <T as Encode>::ssz_fixed_len();
-        if <T as Encode>::is_ssz_fixed_len() && fl >= 1 && fl <= 64 {
-            // just past 64 KiB and just past 128 KiB of encoded items
-            [65536 / fl + 3, 131072 / fl + 1].iter().map(|n| (0..*n).map(|_| T::gen(g, 0)).collect()).collect()
+        if <T as Encode>::is_ssz_fixed_len() {
+            if fl >= 1 && fl <= 64 {
+                // just past 64 KiB and just past 128 KiB of encoded items
+                [65536 / fl + 3, 131072 / fl + 1].iter().map(|n| (0..*n).map(|_| T::gen(g, 0)).collect()).collect()
+            } else {
+                Vec::new()
+            }
         } else {
-            Vec::new()
+            // more variable-size items than any plausible internal cap (4096) and an offset table beyond 16 KiB
+            [4100usize, 5003].iter().map(|n| (0..*n).map(|_| T::gen(g, 0)).collect()).collect()
         }
     }
     fn alloc_coeff() -> usize {
@@ -268,13 +277,22 @@ impl<T: Model> Model for Vec<T> {
 }
 
 impl<T: Model, const N: usize> Model for SmallVec<[T; N]> {
+    fn big_model_ok() -> bool {
+        // thousands of small variable-size items are fine for the model; tens of thousands of fixed ones are not
+        !<T as Encode>::is_ssz_fixed_len()
+    }
     fn big_values(g: &mut Rng) -> Vec<Self> {
         let fl = <T as Encode>::ssz_fixed_len();
-        if <T as Encode>::is_ssz_fixed_len() && fl >= 1 && fl <= 64 {
-            // just past 64 KiB and just past 128 KiB of encoded items
-            [65536 / fl + 3, 131072 / fl + 1].iter().map(|n| (0..*n).map(|_| T::gen(g, 0)).collect()).collect()
+        if <T as Encode>::is_ssz_fixed_len() {
+            if fl >= 1 && fl <= 64 {
+                // just past 64 KiB and just past 128 KiB of encoded items
+                [65536 / fl + 3, 131072 / fl + 1].iter().map(|n| (0..*n).map(|_| T::gen(g, 0)).collect()).collect()
+            } else {
+                Vec::new()
+            }
         } else {
-            Vec::new()
+            // more variable-size items than any plausible internal cap (4096) and an offset table beyond 16 KiB
+            [4100usize, 5003].iter().map(|n| (0..*n).map(|_| T::gen(g, 0)).collect()).collect()
         }
     }
     fn alloc_coeff() -> usize {
@@ -299,13 +317,22 @@ impl<T: Model, const N: usize> Model for SmallVec<[T; N]> {
 }
 
 impl<T: Model + Ord> Model for BTreeSet<T> {
+    fn big_model_ok() -> bool {
+        // thousands of small variable-size items are fine for the model; tens of thousands of fixed ones are not
+        !<T as Encode>::is_ssz_fixed_len()
+    }
     fn big_values(g: &mut Rng) -> Vec<Self> {
         let fl = <T as Encode>::ssz_fixed_len();
-        if <T as Encode>::is_ssz_fixed_len() && fl >= 1 && fl <= 64 {
-            // just past 64 KiB and just past 128 KiB of encoded items
-            [65536 / fl + 3, 131072 / fl + 1].iter().map(|n| (0..*n).map(|_| T::gen(g, 0)).collect()).collect()
+        if <T as Encode>::is_ssz_fixed_len() {
+            if fl >= 1 && fl <= 64 {
+                // just past 64 KiB and just past 128 KiB of encoded items
+                [65536 / fl + 3, 131072 / fl + 1].iter().map(|n| (0..*n).map(|_| T::gen(g, 0)).collect()).collect()
+            } else {
+                Vec::new()
+            }
         } else {
-            Vec::new()
+            // more variable-size items than any plausible internal cap (4096) and an offset table beyond 16 KiB
+            [4100usize, 5003].iter().map(|n| (0..*n).map(|_| T::gen(g, 0)).collect()).collect()
         }
     }
     fn collection_oracle(b: &[u8]) -> Option<bool> {
